@@ -357,7 +357,15 @@ func (c *Ctx) c14Register() {
 				r.Bad("R14.3", "GobRegister", "no-dedupe-test", c.Pos(g.begin.Pos), "a value is processed without testing whether its type is already registered", shortTrace(p))
 				continue
 			}
-			known, tested := p.Truth(look.Results[0])
+			memberV := look.Results[0]
+			if look.Recv != nil && look.Recv.Type != nil {
+				if m, ok := look.Recv.Type.Underlying().(*types.Map); ok {
+					if bt, isBool := m.Elem().Underlying().(*types.Basic); (!isBool || bt.Kind() != types.Bool) && len(look.Results) == 2 {
+						memberV = look.Results[1] // set idiom map[T]struct{}: membership is the comma-ok result
+					}
+				}
+			}
+			known, tested := p.Truth(memberV)
 			if !tested {
 				r.Bad("R14.3", "GobRegister", "dedupe-untested", c.Pos(look.Pos), "the registered-test result is not branched on", shortTrace(p))
 				continue
@@ -394,7 +402,13 @@ func (c *Ctx) c14Register() {
 			if !fresh {
 				r.Bad("R14.3", "GobRegister", "shared-hasher", c.Pos(hashWrites[0].Pos), "the fingerprint hasher is not created per value: a type's fingerprint then depends on the values registered before it", shortTrace(p))
 			}
-			if t, known := p.Truth(setInserts[0].Value); !known || !t {
+			isSetIdiom := false
+			if sv := setInserts[0].Value; sv != nil && sv.Type != nil {
+				if st, ok := sv.Type.Underlying().(*types.Struct); ok && st.NumFields() == 0 {
+					isSetIdiom = true // map[T]struct{}: presence is membership
+				}
+			}
+			if t, known := p.Truth(setInserts[0].Value); !isSetIdiom && (!known || !t) {
 				r.Bad("R14.3", "GobRegister", "type-not-recorded", c.Pos(setInserts[0].Pos), "the type is not recorded as registered (true): a repeated registration would change the hash again", shortTrace(p))
 			}
 			registered := false
